@@ -89,7 +89,7 @@ func runScript(sc scriptIn) scriptResult {
 			status = "stuck: after " + st + ": " + err.Error()
 			return false
 		}
-		w.observeIfQuiescent()
+		w.observeStable()
 		return true
 	}
 	for _, st := range sc.Stim {
@@ -331,11 +331,23 @@ func Main(args []string) int {
 			fmt.Fprintln(os.Stderr, err)
 			return 2
 		}
+		stuckN := 0
 		for _, sc := range scripts {
+			if stuckN >= 3 {
+				// the implementation keeps failing to settle (30 s each): do not burn the budget, report the rest as skipped
+				head := blank("reset", "H", -1)
+				head.ID, head.Pre, head.Script = sc.ID, sc.Pre, strings.Join(sc.Stim, " ")
+				emit(sc.ID, scriptResult{recs: []rec{head, blank("skipped", "H", 0)}, status: "ok"})
+				continue
+			}
 			if *verbose {
 				fmt.Fprintln(os.Stderr, "script", sc.ID, sc.Pre, strings.Join(sc.Stim, " "))
 			}
-			emit(sc.ID, runScript(sc))
+			res := runScript(sc)
+			if res.status != "ok" {
+				stuckN++
+			}
+			emit(sc.ID, res)
 		}
 	case "free":
 		for i := 0; i < *runs; i++ {
